@@ -7,7 +7,7 @@ W=/tmp/seed/confirm; OUT=/tmp/seed/$ID-out; LOG=/tmp/seed/confirm-$ID.log
 export CARGO_TARGET_DIR=/tmp/seed/confirm-target
 cd $W && git checkout -q -- . && git clean -fdq
 : > $LOG
-git apply $OUT/patch.diff || { echo "PATCH DOES NOT APPLY" | tee -a $LOG; exit 1; }
+git apply $OUT/patch.diff 2>/dev/null || git apply --3way $OUT/patch.diff || { echo "PATCH DOES NOT APPLY" | tee -a $LOG; exit 1; }
 mkdir -p "$(dirname $DEST)"; cp $OUT/demo.rs $DEST
 echo "== demo WITH change" >> $LOG
 cargo test -p $PKG --offline --test $TEST 2>&1 | grep -E "^test result|^test .* (ok|FAILED)|error" >> $LOG
@@ -17,7 +17,7 @@ for c in "$@"; do
   echo "== check $c quick against the change" >> $LOG
   /verif/tools/check_against.sh $W $c quick 2>&1 | grep -E "^$c|VIOLATION|KNOWN|MACHINERY|unattributed|^    +[0-9]+  " | cut -c1-300 | head -12 >> $LOG
 done
-git apply -R $OUT/patch.diff
+git apply -R $OUT/patch.diff 2>/dev/null || git checkout -q -- .
 echo "== demo WITHOUT change" >> $LOG
 cargo test -p $PKG --offline --test $TEST 2>&1 | grep -E "^test result|^test .* (ok|FAILED)|error" >> $LOG
 rm -f $DEST; git checkout -q -- . ; git clean -fdq
